@@ -9,7 +9,7 @@ plan; building and running the plan on small data must not panic. Optimizer pani
 executor-build panics are violations; a wall-clock watchdog is inconclusive."""
 import random
 
-from common import Report, Violation, parallel_map, h, run_sentinels
+from common import Report, Violation, parallel_map, h, run_sentinels, panic_site
 from gen import gen_schema, setup_statements, QueryGen
 from sqlcase import RL, DISK_LAYOUTS
 
@@ -29,7 +29,7 @@ def judge(r, sql):
     if not r.get("ok") or not r.get("accepted"):
         return None
     if r.get("optimize_panics"):
-        site = _site(str(r["optimize_panics"]).split("|")[0])
+        site = panic_site(str(r["optimize_panics"]))
         return [(f"optimizer-panics:{site}", f"{sql[:200]}: {r['optimize_panics']}")]
     for i in r.get("issues", []):
         out.append((f"plan-not-executable:{i}", f"{sql[:200]}: optimized plan {r.get('plan', '')[:200]}"))
@@ -38,7 +38,7 @@ def judge(r, sql):
         out.append(("output-types-change", f"{sql[:200]}: bound {tb} optimized {to}"))
     ex = r.get("exec")
     if isinstance(ex, str) and ex.startswith("panic"):
-        site = _site(ex.split("panic: ")[1].split("|")[0]) if "panic: " in ex else "?"
+        site = panic_site(ex.split("panic: ")[1]) if "panic: " in ex else "?"
         msg = ex.split("|")[-1][:60]
         out.append((f"executor-panics:{site}", f"{sql[:220]}: {msg} plan {r.get('plan', '')[:160]}"))
     return out
